@@ -15,8 +15,11 @@ open Driver ScionTime.Server ScionTime.Time64 ScionTime.ListenerTx
       `t<s>` SCMP traceroute request, `f<s>` packet to be forwarded (SCION; answered/forwarded,
       one datagram written each); `x<s>` a datagram that is dropped; `r<s>` (SCION) a valid NTP
       request in basic form over a path that cannot be reversed: handled and recorded by
-      `handleRequest`, then nothing is sent (`Ev.unsent`); `n<s>:<j>` with j such an event quotes
-      the receive timestamp that exchange was recorded with.
+      `handleRequest`, then nothing is sent (`Ev.unsent`); `w<s>` (both listeners) a valid NTP
+      request in basic form arriving from UDP source port 0 of source s's address: handled and
+      recorded, the write of the reply fails (the same `Ev.unsent`; no datagram, no transmit id
+      used); `n<s>:<j>` with j such an event quotes the receive timestamp that exchange was
+      recorded with.
       rec: per event `1` = its exchange is on record at the end of the history, `0` = it is not,
       `-` = the event is no NTP exchange.
       `kb`: per event what the kernel does with the transmit timestamp of the datagram written:
@@ -64,6 +67,7 @@ def parseEv (s : String) : Option EvT :=
   | 'f' :: rest => (String.ofList rest).toNat?.map (.aux 'f')
   | 'x' :: rest => (String.ofList rest).toNat?.map .drop
   | 'r' :: rest => (String.ofList rest).toNat?.map .unsent
+  | 'w' :: rest => (String.ofList rest).toNat?.map .unsent
   | _ => none
 
 def parseKB (s : String) (t : Int) : Option KB :=
